@@ -562,7 +562,11 @@ def run_multi(spec):
             em = rng.randrange(len(ENDMARKERS))
             E = ENDMARKERS[em]
             counts = [rng.choice((0, 1, 5, 25)) for _ in range(G)]
-            q = mc.make_receive_queue(endmarker=E) if want_end else mc.make_receive_queue()
+            # the queue is asked for before anything was sent - or only after the members have sent everything and their
+            # executions have ended (closed members that still hold their items)
+            late_queue = rng.random() < 0.5
+            if not late_queue:
+                q = mc.make_receive_queue(endmarker=E) if want_end else mc.make_receive_queue()
 
             def send(g):
                 for s in range(counts[g]):
@@ -574,6 +578,12 @@ def run_multi(spec):
                 t.start()
             for t in ths:
                 t.join(10)
+            if late_queue:
+                from vlib import pairs
+
+                pairs.wait_until(lambda: all(lc.isclosed() for lc, rc, fin in ends), 10.0)
+                res.count("receive_queues_made_after_the_members_closed")
+                q = mc.make_receive_queue(endmarker=E) if want_end else mc.make_receive_queue()
             got = []
             expect = sum(counts) + (G if want_end else 0)
             t0 = time.monotonic()
@@ -587,7 +597,7 @@ def run_multi(spec):
                     got.append(q.get(timeout=0.02))
             except Exception:
                 pass
-            label = f"multichannel G={G} counts={counts} endmarker={want_end}"
+            label = f"multichannel G={G} counts={counts} endmarker={want_end} queue made {'after the members closed' if late_queue else 'first'}"
             for g, (lc, rc, fin) in enumerate(ends):
                 mine = [obj for chan, obj in got if chan is lc]
                 h = {"n": counts[g], "hid": g, "endmarker": want_end, "em": em}
